@@ -639,7 +639,26 @@ def r45(orig, rule):
     return s[:m.start()] + '{ let mut __d: %s = %s::new(); for __b in %s.iter() { __d.push_back(*__b); } __d }' % (d, dn, y) + s[m.end():]
 
 
+def r46(orig, rule):
+    # X.into_iter().all(|C| P)   (tail expression; X a slice)   ->  { let mut __r = true; for C in X.iter() { if !(P) { __r = false; } } __r }
+    #   (all() is true iff P holds of every item; P is side-effect free, so skipping the short-circuit is not observable)
+    s = norm(orig)
+    m = _m(r'(.+?) \. into_iter \( \) \. all \( \| (%s) \| (.+) \)' % ID, s)
+    x, c, pred = m.groups()
+    return '{ let mut __r = true; for %s in %s.iter() { if !(%s) { __r = false; } } __r }' % (c, x, pred)
+
+
+def r47(orig, rule):
+    # S.extend(X.into_iter().map(|C| F));   (X a slice)   ->  for C in X.iter() { S.insert(F); }
+    #   (extend inserts every item the iterator yields)
+    s = norm(orig)
+    m = _m(r'(%s) \. extend \( (.+?) \. into_iter \( \) \. map \( \| (%s) \| (.+) \) \) ;' % (ID, ID), s)
+    st, x, c, f = m.groups()
+    return 'for %s in %s.iter() { %s.insert(%s); }' % (c, x, st, f)
+
+
 GENERATORS = {
+    'R46': r46, 'R47': r47,
     'R44': r44, 'R45': r45,
     'R40': r40, 'R41': r41, 'R42': r42, 'R43': r43,
     'R39': r39,
